@@ -157,12 +157,19 @@ func scenC03(k *K) {
 		if typ == "eventlog" {
 			payload, _ = operation.NewOperation(nil, "ADD", []byte(fmt.Sprintf("forged-%d", a))).Marshal()
 		}
-		fe, err := adv.Craft(kind, ident, priv, c.Addr, payload, next, maxT)
+		// as predecessor or reference of the colluding writer's entry the forged entry may also
+		// be one written for another log (the outsider's own database), with a clock at or
+		// above the naming entry's
+		feLog, feClock, variant := c.Addr, maxT, ""
+		if (route == "ancestor" || route == "ref") && k.C.Chance(1, 3) {
+			feLog, feClock, variant = c.Addr+"-outsider", maxT+1+k.C.Intn(4), "/other-log"
+		}
+		fe, err := adv.Craft(kind, ident, priv, feLog, payload, next, feClock)
 		if err != nil {
 			k.W.Stat("craft-failed:" + kind)
 			continue
 		}
-		desc := kind + "@" + route
+		desc := kind + "@" + route + variant
 		if listKind == "wildcard" {
 			allowedForeign[fe.Hash.String()] = true
 		} else {
